@@ -13,7 +13,7 @@ from props import c01
 PID = "C02"
 MODULES = ["FlVerif.Props.C02"]
 NAMESPACE = "C02"
-TIE_A = ["Norm.", "Hedge.", "Term."]
+TIE_A = ["Norm.", "Hedge.", "Term.", "code:fuzzylite.engine.Engine.input_values.fset"]
 RULE = ("engines with the General activation method (Mamdani, Larsen, Takagi-Sugeno, Tsukamoto, hybrid; every lock-previous / "
         "default / lock-range setting) x batches of 1..8 rows including NaN and +-inf rows, run three ways: (i) one batch "
         "through per-variable arrays, (ii) one batch through `engine.input_values = matrix`, (iii) row by row with Python "
